@@ -361,8 +361,12 @@ void ep4_mul_sim_joint(ep4_t r, const ep4_t p, const bn_t k, const ep4_t q,
 
 void ep4_mul_sim_gen(ep4_t r, const bn_t k, const ep4_t q, const bn_t m) {
 	ep4_t gen;
+	bn_t n, _k, _m;
 
 	ep4_null(gen);
+	bn_null(n);
+	bn_null(_k);
+	bn_null(_m);
 
 	if (bn_is_zero(k)) {
 		ep4_mul(r, q, m);
@@ -375,12 +379,19 @@ void ep4_mul_sim_gen(ep4_t r, const bn_t k, const ep4_t q, const bn_t m) {
 
 	RLC_TRY {
 		ep4_new(gen);
+		bn_new(n);
+		bn_new(_k);
+		bn_new(_m);
 
 		ep4_curve_get_gen(gen);
+		ep4_curve_get_ord(n);
+		/* The recoding buffers hold 2 * RLC_FP_BITS digits. */
+		bn_mod(_k, k, n);
+		bn_mod(_m, m, n);
 #if EP_FIX == LWNAF && defined(EP_PRECO)
-		ep4_mul_sim_plain(r, gen, k, q, m, ep4_curve_get_tab());
+		ep4_mul_sim_plain(r, gen, _k, q, _m, ep4_curve_get_tab());
 #else
-		ep4_mul_sim(r, gen, k, q, m);
+		ep4_mul_sim(r, gen, _k, q, _m);
 #endif
 	}
 	RLC_CATCH_ANY {
@@ -388,6 +399,9 @@ void ep4_mul_sim_gen(ep4_t r, const bn_t k, const ep4_t q, const bn_t m) {
 	}
 	RLC_FINALLY {
 		ep4_free(gen);
+		bn_free(n);
+		bn_free(_k);
+		bn_free(_m);
 	}
 }
 
